@@ -511,8 +511,6 @@ func (f *Flooder) AnnounceLocalRoutes() {
 	localDomainRoutes := f.routeMgr.GetLocalDomainRoutes()
 	localForwardRoutes := f.routeMgr.GetLocalForwardRoutes()
 
-	seq := f.routeMgr.IncrementSequence()
-
 	// Convert to protocol routes (CIDR + domain + forward + agent presence)
 	routes := make([]protocol.Route, 0, len(localRoutes)+len(localDomainRoutes)+len(localForwardRoutes)+1)
 
@@ -570,31 +568,58 @@ func (f *Flooder) AnnounceLocalRoutes() {
 		displayName = ""
 	}
 
-	// Build advertisement
-	adv := &protocol.RouteAdvertise{
-		OriginAgent:       f.localID,
-		OriginDisplayName: displayName,
-		Sequence:          seq,
-		Routes:            routes,
-		Path:              path,    // Keep for backwards compat
-		EncPath:           encPath, // Encrypted path for wire format
-		SeenBy:            []identity.AgentID{f.localID},
-	}
+	// A route set that does not fit one advertisement (one-byte route count, one
+	// frame) is announced as several advertisements, each with its own sequence.
+	for _, chunk := range chunkRoutes(routes) {
+		adv := &protocol.RouteAdvertise{
+			OriginAgent:       f.localID,
+			OriginDisplayName: displayName,
+			Sequence:          f.routeMgr.IncrementSequence(),
+			Routes:            chunk,
+			Path:              path,    // Keep for backwards compat
+			EncPath:           encPath, // Encrypted path for wire format
+			SeenBy:            []identity.AgentID{f.localID},
+		}
 
-	frame := &protocol.Frame{
-		Type:     protocol.FrameRouteAdvertise,
-		StreamID: protocol.ControlStreamID,
-		Payload:  adv.Encode(),
-	}
+		frame := &protocol.Frame{
+			Type:     protocol.FrameRouteAdvertise,
+			StreamID: protocol.ControlStreamID,
+			Payload:  adv.Encode(),
+		}
 
-	// Send to all peers
-	for _, peerID := range f.sender.GetPeerIDs() {
-		if err := f.sender.SendToPeer(peerID, frame); err != nil {
-			f.logger.Debug("failed to announce local routes",
-				logging.KeyPeerID, peerID.ShortString(),
-				logging.KeyError, err)
+		// Send to all peers
+		for _, peerID := range f.sender.GetPeerIDs() {
+			if err := f.sender.SendToPeer(peerID, frame); err != nil {
+				f.logger.Debug("failed to announce local routes",
+					logging.KeyPeerID, peerID.ShortString(),
+					logging.KeyError, err)
+			}
 		}
 	}
+}
+
+// Limits for the routes carried by one advertisement. The wire format counts routes
+// in one byte, and the byte budget leaves room in the frame for the display name and
+// for the path and seen-by lists, which grow by one entry per hop.
+const (
+	maxRoutesPerAdvertise     = 255
+	maxRouteBytesPerAdvertise = 8192
+)
+
+// chunkRoutes splits a route list into groups that each fit one advertisement.
+// It always returns at least one (possibly empty) group.
+func chunkRoutes(routes []protocol.Route) [][]protocol.Route {
+	chunks := make([][]protocol.Route, 0, 1)
+	start, size := 0, 0
+	for i, r := range routes {
+		n := 4 + len(r.Prefix) // family + prefix length + prefix + metric
+		if i > start && (i-start >= maxRoutesPerAdvertise || size+n > maxRouteBytesPerAdvertise) {
+			chunks = append(chunks, routes[start:i])
+			start, size = i, 0
+		}
+		size += n
+	}
+	return append(chunks, routes[start:])
 }
 
 // WithdrawLocalRoutes floods withdrawal of all local routes.
@@ -699,8 +724,6 @@ func (f *Flooder) SendFullTable(peerID identity.AgentID) {
 
 	// Send a separate advertisement for each origin
 	for originAgent := range allOrigins {
-		seq := f.routeMgr.IncrementSequence()
-
 		cidrRoutes := byOrigin[originAgent]
 		agentPresenceRoutes := agentByOrigin[originAgent]
 		forwardOriginRoutes := forwardByOrigin[originAgent]
@@ -767,25 +790,27 @@ func (f *Flooder) SendFullTable(peerID identity.AgentID) {
 			}
 		}
 
-		adv := &protocol.RouteAdvertise{
-			OriginAgent:       originAgent,
-			OriginDisplayName: originDisplayName,
-			Sequence:          seq,
-			Routes:            routes,
-			Path:              path,
-			SeenBy:            []identity.AgentID{f.localID},
-		}
+		for _, chunk := range chunkRoutes(routes) {
+			adv := &protocol.RouteAdvertise{
+				OriginAgent:       originAgent,
+				OriginDisplayName: originDisplayName,
+				Sequence:          f.routeMgr.IncrementSequence(),
+				Routes:            chunk,
+				Path:              path,
+				SeenBy:            []identity.AgentID{f.localID},
+			}
 
-		frame := &protocol.Frame{
-			Type:     protocol.FrameRouteAdvertise,
-			StreamID: protocol.ControlStreamID,
-			Payload:  adv.Encode(),
-		}
+			frame := &protocol.Frame{
+				Type:     protocol.FrameRouteAdvertise,
+				StreamID: protocol.ControlStreamID,
+				Payload:  adv.Encode(),
+			}
 
-		if err := f.sender.SendToPeer(peerID, frame); err != nil {
-			f.logger.Debug("failed to send full routing table",
-				logging.KeyPeerID, peerID.ShortString(),
-				logging.KeyError, err)
+			if err := f.sender.SendToPeer(peerID, frame); err != nil {
+				f.logger.Debug("failed to send full routing table",
+					logging.KeyPeerID, peerID.ShortString(),
+					logging.KeyError, err)
+			}
 		}
 	}
 }
